@@ -106,7 +106,13 @@ func (x *Exec) libModel(st *State, in ssa.Instruction, callee *ssa.Function, nam
 		}
 		return ret(v)
 	case "errors.Is":
-		return ret(x.freshValue(st, rt, "erris"))
+		// errors.Is(nil, target) is false for a non-nil target; errors.Is(e, e) is true
+		v := x.freshValue(st, rt, "erris")
+		if len(args) == 2 && args[0].K == KIface && args[1].K == KIface {
+			st.assume(fmt.Sprintf("(=> (and (= %s 0) (not (= %s 0))) (not %s))", args[0].Fs[0].Term, args[1].Fs[0].Term, v.Term))
+			st.assume(fmt.Sprintf("(=> (and (= %s %s) (= %s %s) (not (= %s 0))) %s)", args[0].Fs[0].Term, args[1].Fs[0].Term, args[0].Fs[1].Term, args[1].Fs[1].Term, args[0].Fs[0].Term, v.Term))
+		}
+		return ret(v)
 	case "fmt.Sprintf":
 		return ret(x.sprintfModel(st, rt, args))
 	case "fmt.Sprint", "fmt.Sprintln":
